@@ -1268,6 +1268,12 @@ impl CodegenContext {
         &mut self,
         f: F,
     ) -> CoreResult<()> {
+        // Already emitting into the dummy segment (e.g. an untaken branch inside an untaken branch)? Then keep using it,
+        // instead of removing it while the outer level still needs it.
+        if self.current_segment == Some(Identifier::new("$dummy")) {
+            return f(self);
+        }
+
         let prev_segment = self.current_segment.clone();
         self.segments
             .insert("$dummy".into(), Segment::new(SegmentOptions::default()));
